@@ -134,9 +134,7 @@ impl Oracle for CrashOracle {
 			if p.failed_by_recipient && failed == 0 {
 				// A sender restarted from a manager older than the send no longer lists the payment at all;
 				// the property then only asks that nothing is in flight and it can never complete.
-				let listed = !w.nodes[p.from].cm.list_recent_payments().is_empty();
-				let pending_htlcs: usize = w.nodes[p.from].cm.list_channels().iter().map(|c| c.pending_outbound_htlcs.len()).sum();
-				if restarted_sender && !listed && pending_htlcs == 0 {
+				if restarted_sender && !crate::oracles::payment_listed_or_in_flight(w, p.from, &p.id, &p.hash) {
 					crate::runner::witness("restarted-sender-forgot-resolved-payment");
 					label.push('0');
 					continue;
@@ -168,7 +166,8 @@ pub fn build(s: &C10Scn) -> WorldSys {
 	let po = PersistOrderOracle::new(&w, infos.clone());
 	let rev = RevocationOracle::new(&w, infos.clone());
 	let mut sys = WorldSys::new(w, chans, s.ops.clone());
-	sys.ops_first = true;
+	// scenarios with a held payment issue their operations one after the other, each at quiescence
+	sys.ops_first = !s.ops.iter().any(|o| matches!(o, Op::ClaimHeld { .. }));
 	sys.dev = s.dev.clone();
 	sys.crash_nodes = s.crash_nodes.clone();
 	sys.settle_on_chain = true;
@@ -248,6 +247,36 @@ pub fn scenarios(tier: Tier) -> Vec<C10Scn> {
 					async_from_start: vec![],
 				});
 			}
+		}
+		// two HTLCs in flight on the stale manager's channel, the second resolved before the crash: the
+		// reload has to sort out which of the manager's HTLCs the newer monitor still has
+		for (pol, pn) in [(ClaimPolicy::Fail, "fail"), (ClaimPolicy::Claim, "claim")] {
+			if !th && pn == "claim" {
+				continue;
+			}
+			v.push(C10Scn {
+				name: format!("{}-ab-hold+{}-lagging-manager-a", n, pn),
+				ct,
+				nodes: 2,
+				ops: vec![
+					Op::Send { from: 0, hops: vec![(1, 0)], amount_msat: 50_000_000, policy: ClaimPolicy::Hold },
+					Op::Send { from: 0, hops: vec![(1, 0)], amount_msat: 30_000_000, policy: pol.clone() },
+					Op::ClaimHeld { pay: 0 },
+				],
+				dev: Deviations {
+					reorder: None,
+					early_op: None,
+					crash: Some(1),
+					crash_inside: None,
+					complete_reorder: None,
+					hold_manager: Some(1),
+					early_release: None,
+					..Deviations::default()
+				},
+				k: 2,
+				crash_nodes: vec![0],
+				async_from_start: vec![],
+			});
 		}
 		// asynchronous writes in flight at the crash: every candidate snapshot
 		v.push(C10Scn {
